@@ -251,8 +251,8 @@ func genC16(r *common.RNG, id string) (*Case, *c16Expect) {
 		if respell && r.Chance(1, 2) {
 			name = spellName(r, loc)
 			if r.Chance(1, 10) {
-				// absolute and not clean: unpacked at the same place, but registered under the
-				// uncleaned path, which only the very same spelling addresses
+				// absolute and not clean: unpacked at the same place and registered under the
+				// cleaned path, so every way of addressing the file finds the entry
 				name = pick(r, []string{"$WORK/./", "$WORK//"}) + loc
 			}
 		}
@@ -359,18 +359,12 @@ func genC16(r *common.RNG, id string) (*Case, *c16Expect) {
 		}
 		c.Lines = append(c.Lines, lines...)
 		ref := c16Ref(r, cwd, loc)
-		if rawKey[loc] {
-			// registered under the uncleaned absolute path: any other way of addressing the file
-			// is not recognised by the implementation as it stands (the model copies that; the
-			// direct oracle does not judge these scripts)
-			ex.Known = false
-			if r.Chance(1, 2) {
-				ref = regName[loc]
-			}
-		} else if !classy && r.Chance(1, 25) {
-			// the same from the other side: an absolute, uncleaned way of addressing a registered entry
-			ref = pick(r, []string{"$WORK/./", "$WORK//", "$WORK/sub/../"}) + loc
-			ex.Known = false
+		if rawKey[loc] && r.Chance(1, 2) {
+			ref = regName[loc] // the spelling of the archive, absolute and not clean
+		} else if !classy && r.Chance(1, 12) {
+			// an absolute, uncleaned way of addressing the entry: it is the entry all the same
+			// (scriptFiles is keyed by the cleaned path: a repaired defect)
+			ref = pick(r, []string{"$WORK/./", "$WORK//", "$WORK/sub/../", "$WORK/golden/../sub/.././"}) + loc
 		}
 		lineNo := len(c.Lines) + 1
 		add := func(l string) int {
